@@ -48,3 +48,18 @@ package connectconformance
 // completeness: the "can't pad" error is only given when no padding length reaches the size
 //@   assert_at "can't pad to exactly": forall n int :: n >= 0 ==> pbSize(reflectReq, n) != totalSize
 //@   assert_at "can't shrink to exactly": forall n int :: n >= 0 ==> pbSize(reflectReq, n) != totalSize
+
+// Loading any parseable suite never panics; what cannot be handled is an error.
+// On success every test case of every suite has a request.
+//@ spec wfSuite(s *conformancev1.TestSuite) bool = s != nil && allocated(s) && allocated(s.TestCases) &&
+//@    (forall i int :: 0 <= i && i < len(s.TestCases) ==> allocated(s.TestCases[i]) && s.TestCases[i].Request != nil && allocated(s.TestCases[i].Request))
+//@ func parseTestSuites
+//@   ensures result_1 == nil ==> result_0 != nil && (forall k string :: has(result_0, k) ==> wfSuite(result_0[k]))
+//@   loop 0: invariant allSuites != nil && fresh(allSuites) && (forall k string :: has(allSuites, k) ==> wfSuite(allSuites[k]))
+//@   loop 1: invariant suite != nil && fresh(suite) && allocated(suite) && allocated(suite.TestCases) && allSuites != nil && fresh(allSuites)
+//@           invariant @a forall i int :: 0 <= i && i <= rangeindex ==> allocated(suite.TestCases[i])
+//@           invariant @b forall i int :: 0 <= i && i <= rangeindex ==> suite.TestCases[i].Request != nil
+//@           invariant @c forall i int :: 0 <= i && i <= rangeindex ==> allocated(suite.TestCases[i].Request)
+//@           invariant forall k string :: has(allSuites, k) ==> wfSuite(allSuites[k])
+//@   assume_at "expandRequestData(testCase)": forall i int, j int :: 0 <= i && i < j && j < len(testCase.Request.RequestMessages) ==> testCase.Request.RequestMessages[i] != testCase.Request.RequestMessages[j]
+//@   //# (the elements of a repeated field of a freshly parsed message are distinct objects)
